@@ -137,11 +137,14 @@ pub struct Robust {
     pub frames: u64,
     pub hostile_after_connected: u64,
     pub first_hostile_state: Option<String>,
+    /// identifiers in use and packets stored before the current call: each may legitimately produce one event
+    last_in_use: usize,
+    last_stored: usize,
 }
 
 impl Robust {
     pub fn new() -> Robust {
-        Robust { pending: vec![], frames: 0, hostile_after_connected: 0, first_hostile_state: None }
+        Robust { pending: vec![], frames: 0, hostile_after_connected: 0, first_hostile_state: None, last_in_use: 0, last_stored: 0 }
     }
 }
 
@@ -167,11 +170,20 @@ impl Observer for Robust {
         if let Some(p) = &st.wedge {
             return Err(fail("C05.no_progress", format!("{what}"), format!("[{cfg}] {p}")));
         }
-        let bound = w.c.stored().len() + 32;
+        // one call legitimately returns at most one release per identifier in use and one retransmission per stored
+        // packet, plus a constant number of protocol events
+        let stored_now = w.c.stored().len();
+        let max_id: u64 = if w.t.cfg.idw == 2 { 65535 } else { u32::MAX as u64 };
+        let free: u64 = w.c.free_ids().iter().map(|(l, h)| h - l + 1).sum();
+        let in_use_now = (max_id - free.min(max_id)) as usize;
+        let bound = self.last_stored.max(stored_now) + self.last_in_use + 32;
+        self.last_stored = stored_now;
+        let in_use_before = self.last_in_use;
+        self.last_in_use = in_use_now;
         let lists: Vec<&Vec<NEvent>> = if st.calls.is_empty() { vec![&st.events] } else { st.calls.iter().map(|(_, l)| l).collect() };
         for list in lists {
             if list.len() > bound {
-                return Err(fail("C05.event_flood", &what, format!("[{cfg}] a single call returned {} events (store size + 32 = {bound})", list.len())));
+                return Err(fail("C05.event_flood", &what, format!("[{cfg}] a single call returned {} events (bound: stored packets + {in_use_before} identifiers in use + 32 = {bound})", list.len())));
             }
         }
         match &st.call {
